@@ -1,11 +1,16 @@
 /-
-C17 — property theorems: all-pairs shortest paths are exact.
+C17 — property theorems: all-pairs shortest paths and the layout distance matrix are exact.
 
-Spec (Spec/Apsp.lean): `Walk g i j c` (walks in the undirected multigraph given by the edge list),
-`IsDist g i j d` (`d` = minimum walk weight, `none` iff no walk), `IsApsp g D`.
+Spec (Spec/Apsp.lean): `Walk g i j c` (walks in the undirected multigraph given by the edge list;
+self-loops and parallel edges allowed), `IsDist g i j d` (`d` = minimum walk weight, `none` — the
+DBL_MAX sentinel — iff there is no walk), `IsApsp g D`, `Valid g` (end points `< n`, weights `≥ 0`).
+Models (Model/ShortestPaths.lean): `floydWarshall` (the code in /repo now), `floydWarshallOrig`
+(the code before `fix: floyd_warshall keeps the lightest parallel edge and ignores self-loops`),
+`dijkstra`/`johnsons` over an abstract min-selection, `layoutD`.
 -/
 import AdaptaVerif.Lemmas.ApspCheck
 import AdaptaVerif.Lemmas.ApspFWInit
+import AdaptaVerif.Lemmas.ApspLayout
 namespace AdaptaVerif.Props.C17
 open AdaptaVerif.Model.ShortestPaths AdaptaVerif.Spec.Apsp AdaptaVerif.Check.Apsp AdaptaVerif.Lemmas.Apsp
 
@@ -21,10 +26,9 @@ theorem walk_iff_stepList (g : Graph) (hv : Valid g) (i j : Nat) (c : Rat) :
   · rintro ⟨steps, hs, rfl⟩; exact isStepList_walk hv steps i j hs
 
 /-- (1) Soundness of the run-time certificate check, for ALL finite graphs and matrices:
-    if `checkApsp g D` accepts, then the graph is valid (end points in range, weights ≥ 0) and for
-    all vertices `i j`, `D i j` is the minimum weight over all walks from `i` to `j`, `none` (the
-    "unreachable" sentinel) exactly when there is no walk; moreover `D` is symmetric with zero
-    diagonal. -/
+    if `checkApsp g D` accepts, then the graph is valid and for all vertices `i j`, `D i j` is the
+    minimum weight over all walks from `i` to `j`, `none` (the "unreachable" sentinel) exactly
+    when there is no walk; moreover `D` is symmetric with zero diagonal. -/
 theorem checkApsp_sound (g : Graph) (D : Nat → Nat → Dist) (h : checkApsp g D = true) :
     Valid g ∧ IsApsp g D ∧ (∀ i j, i < g.n → j < g.n → D i j = D j i) ∧ (∀ i, i < g.n → D i i = some 0) := by
   unfold checkApsp at h
@@ -48,10 +52,21 @@ example : checkApsp ⟨5, [(0, 1, 0), (1, 2, 0), (2, 0, 0), (2, 3, 3/8), (3, 2, 
       else if i = j then some 0
       else if i = 3 ∨ j = 3 then some (3/8) else some 0) = true := by decide +kernel
 
-/-- (2) `floyd_warshall` as coded (in-place triple loop, plain-assignment initialisation) computes
-    exact shortest paths on every valid graph WITHOUT parallel edges and self-loops. -/
-theorem fw_correct_simple (g : Graph) (hv : Valid g) (hs : Simple g) : IsApsp g (floydWarshall g).get := by
-  obtain ⟨h1, h2, h3, h4⟩ := fwInit_simple hv hs
+/-- (2) `floyd_warshall` as it is coded now (in-place triple loop; initialisation
+    `if (u != v && w < D[u][v]) D[u][v] = D[v][u] = w`) computes exact shortest paths on EVERY valid
+    multigraph — parallel edges, self-loops, zero weights, disconnected graphs included. -/
+theorem fw_correct (g : Graph) (hv : Valid g) : IsApsp g (floydWarshall g).get := by
+  obtain ⟨h1, h2, h3, h4⟩ := fwInit_ok hv
+  exact fwLoop_correct hv h1 h2 h3 h4
+
+/-- non-vacuity: a valid multigraph with parallel edges and a self-loop -/
+example : Valid ⟨4, [(0, 1, 1), (1, 0, 5), (2, 2, 3), (3, 0, 5/8)]⟩ := by
+  intro e he; simp at he; rcases he with rfl | rfl | rfl | rfl <;> decide +kernel
+
+/-- (2') `floyd_warshall` as it was coded before the fix (plain assignment `D[u][v] = D[v][u] = w`)
+    is exact on every valid graph WITHOUT parallel edges and self-loops … -/
+theorem fwOrig_correct_simple (g : Graph) (hv : Valid g) (hs : Simple g) : IsApsp g (floydWarshallOrig g).get := by
+  obtain ⟨h1, h2, h3, h4⟩ := fwInitOrig_simple hv hs
   exact fwLoop_correct hv h1 h2 h3 h4
 
 /-- non-vacuity: a valid simple graph -/
@@ -61,18 +76,13 @@ example : Valid ⟨4, [(0, 1, 1), (1, 2, 0), (3, 0, 5/8)]⟩ ∧ Simple ⟨4, [(
   · intro e he; simp at he; rcases he with rfl | rfl | rfl <;> decide
   · simp [SameEnds]
 
-/-- (2') With the repaired initialisation proposed for /repo (minimum over parallel edges,
-    self-loops skipped) the same triple loop is exact on EVERY valid multigraph. -/
-theorem fwFixed_correct (g : Graph) (hv : Valid g) : IsApsp g (floydWarshallFixed g).get := by
-  obtain ⟨h1, h2, h3, h4⟩ := fwInitFixed_ok hv
-  exact fwLoop_correct hv h1 h2 h3 h4
-
-/-- (5a) Witness: two parallel edges 0–1 of weights 1 then 5 — the code's `D[u][v] = D[v][u] = w`
-    keeps the LAST weight: `floyd_warshall` returns 5, the distance is 1. -/
-theorem fw_parallel_witness :
-    (floydWarshall ⟨2, [(0, 1, 1), (0, 1, 5)]⟩).get 0 1 = some 5 ∧
-    ¬ IsApsp ⟨2, [(0, 1, 1), (0, 1, 5)]⟩ (floydWarshall ⟨2, [(0, 1, 1), (0, 1, 5)]⟩).get := by
-  have h5 : (floydWarshall ⟨2, [(0, 1, 1), (0, 1, 5)]⟩).get 0 1 = some 5 := by decide +kernel
+/-- (5a) … but not beyond: two parallel edges 0–1 of weights 1 then 5 — the old assignment kept the
+    LAST weight: the result was 5, the distance is 1. (Replayed on the C++ before the fix:
+    harness case 0.) -/
+theorem fwOrig_parallel_witness :
+    (floydWarshallOrig ⟨2, [(0, 1, 1), (0, 1, 5)]⟩).get 0 1 = some 5 ∧
+    ¬ IsApsp ⟨2, [(0, 1, 1), (0, 1, 5)]⟩ (floydWarshallOrig ⟨2, [(0, 1, 1), (0, 1, 5)]⟩).get := by
+  have h5 : (floydWarshallOrig ⟨2, [(0, 1, 1), (0, 1, 5)]⟩).get 0 1 = some 5 := by decide +kernel
   refine ⟨h5, ?_⟩
   intro h
   have hd := h 0 1 (by decide) (by decide)
@@ -82,11 +92,11 @@ theorem fw_parallel_witness :
   have := hd.2 _ hw
   norm_num at this
 
-/-- (5b) Witness: a self-loop of weight 3 overwrites the zero diagonal. -/
-theorem fw_selfloop_witness :
-    (floydWarshall ⟨1, [(0, 0, 3)]⟩).get 0 0 = some 3 ∧
-    ¬ IsApsp ⟨1, [(0, 0, 3)]⟩ (floydWarshall ⟨1, [(0, 0, 3)]⟩).get := by
-  have h3 : (floydWarshall ⟨1, [(0, 0, 3)]⟩).get 0 0 = some 3 := by decide +kernel
+/-- (5b) a self-loop of weight 3 overwrote the zero diagonal (harness case 1). -/
+theorem fwOrig_selfloop_witness :
+    (floydWarshallOrig ⟨1, [(0, 0, 3)]⟩).get 0 0 = some 3 ∧
+    ¬ IsApsp ⟨1, [(0, 0, 3)]⟩ (floydWarshallOrig ⟨1, [(0, 0, 3)]⟩).get := by
+  have h3 : (floydWarshallOrig ⟨1, [(0, 0, 3)]⟩).get 0 0 = some 3 := by decide +kernel
   refine ⟨h3, ?_⟩
   intro h
   have hd := h 0 0 (by decide) (by decide)
@@ -94,10 +104,53 @@ theorem fw_selfloop_witness :
   have := hd.2 0 (Walk.nil (by decide))
   norm_num at this
 
-/-- the repaired version on the two witnesses -/
-theorem fwFixed_witnesses :
-    (floydWarshallFixed ⟨2, [(0, 1, 1), (0, 1, 5)]⟩).get 0 1 = some 1 ∧
-    (floydWarshallFixed ⟨1, [(0, 0, 3)]⟩).get 0 0 = some 0 := by
+/-- the current code on the two witnesses -/
+theorem fw_witnesses_fixed :
+    (floydWarshall ⟨2, [(0, 1, 1), (0, 1, 5)]⟩).get 0 1 = some 1 ∧
+    (floydWarshall ⟨1, [(0, 0, 3)]⟩).get 0 0 = some 0 := by
   constructor <;> decide +kernel
+
+/-- (3) `dijkstra` over ANY priority queue that hands out a minimum-key element (`SelSpec`: the
+    abstraction of `PairingHeap::extractMin`/`decreaseKey`) returns the exact single-source
+    distances, for every valid multigraph and every source. -/
+theorem dijkstra_correct (sel : Selector) (hsel : SelSpec sel) (g : Graph) (hv : Valid g)
+    (s j : Nat) (hs : s < g.n) (hj : j < g.n) : IsDist g s j (Vec.at (dijkstra sel g s) j) :=
+  dijkstra_exact hsel hv hs hj
+
+/-- non-vacuity: the selector used by the driver meets the specification -/
+theorem selMin_meets_spec : SelSpec selMin := selMin_spec
+
+/-- `johnsons` (Dijkstra from every source) returns the exact all-pairs matrix. -/
+theorem johnsons_correct (sel : Selector) (hsel : SelSpec sel) (g : Graph) (hv : Valid g) :
+    IsApsp g (johnsons sel g).get := by
+  intro i j hi hj
+  rw [johnsons_get sel g hi j]
+  exact dijkstra_exact hsel hv hi hj
+
+/-- all three algorithms agree (on the models) -/
+theorem three_agree (sel : Selector) (hsel : SelSpec sel) (g : Graph) (hv : Valid g) (i j : Nat)
+    (hi : i < g.n) (hj : j < g.n) :
+    (floydWarshall g).get i j = (johnsons sel g).get i j ∧
+    (johnsons sel g).get i j = Vec.at (dijkstra sel g i) j :=
+  ⟨IsDist.unique (fw_correct g hv i j hi hj) (johnsons_correct sel hsel g hv i j hi hj),
+   johnsons_get sel g hi j⟩
+
+/-- The layout's ideal-distance matrix (`computePathLengths` → `readLinearD`): for `i ≠ j` it is
+    `idealLength ×` the shortest-path distance in the graph whose edge lengths are the given ones
+    with non-positive entries replaced by 1 (all 1 when no lengths are given); the sentinel stays
+    for pairs in different components. -/
+theorem layoutD_correct (sel : Selector) (hsel : SelSpec sel) (n : Nat) (es : List (Nat × Nat))
+    (lens : Option (List Rat)) (ideal : Rat) (hes : ∀ e ∈ es, e.1 < n ∧ e.2 < n)
+    (i j : Nat) (hi : i < n) (hj : j < n) (hij : i ≠ j) :
+    ∃ d, IsDist (layoutGraph n es lens) i j d ∧
+      (layoutD sel n es lens ideal).get i j = d.map (· * ideal) := by
+  have hv := layoutGraph_valid n es lens hes
+  have hn : (layoutGraph n es lens).n = n := by cases lens <;> rfl
+  refine ⟨(johnsons sel (layoutGraph n es lens)).get i j,
+    johnsons_correct sel hsel _ hv i j (by rw [hn]; exact hi) (by rw [hn]; exact hj), ?_⟩
+  rw [layoutD_get]
+  unfold scaleEntry
+  rw [if_neg hij]
+  cases (johnsons sel (layoutGraph n es lens)).get i j <;> rfl
 
 end AdaptaVerif.Props.C17
